@@ -27,28 +27,10 @@ def menu(ctx: Ctx, rng: random.Random) -> list[dict]:
     # leading zeros, each with every check digit) are run once with line tracing, and one account per
     # distinct (set of executed lines, kind of outcome) enters the menu - so a path that raises half-way
     # through a multi-variant method is in the menu next to the paths it could disturb.
-    cands = {}
-    for meth in c07.METHODS:
-        special = c07.boundary_accounts(meth, rng)
-        rng.shuffle(special)
-        pool = special[:40]
-        for k in range(24 if ctx.quick else 80):
-            a = "0" * (k % 4) + "".join(rng.choice("0123456789") for _ in range(10 - k % 4))
-            pool.append(a)
-            if k % 3 == 0:
-                pool += c07.with_every_check_digit(a, meth)
-        cands[meth] = list(dict.fromkeys(pool))
-    cls = c14.thr_jobs(ctx, [{"mode": "classify", "calls": [{"op": "algo.validate", "method": meth, "account": cps(a)}
-                                                              for a in cands[meth]]} for meth in c07.METHODS], "classify")
     cap = 9 if ctx.quick else 14
-    for meth, res in zip(c07.METHODS, cls):
-        seen, accts = set(), ["0000000000"]
-        for a, c in zip(cands[meth], res["classes"]):
-            key = (c["sig"], c["kind"])
-            if key not in seen and a not in accts and len(accts) < cap:
-                seen.add(key)
-                accts.append(a)
-        ctx.coverage.setdefault("path_classes_per_method", {})[meth] = len(accts)
+    chosen = c14.path_class_accounts(ctx, rng, cap, "c15")
+    for meth in c07.METHODS:
+        accts = chosen[meth]
         FAMILIES.append(list(range(len(m), len(m) + len(accts))))
         for acct in accts:
             m.append({"op": "algo.validate", "method": meth, "account": cps(acct)})
